@@ -27,11 +27,19 @@ def check(run, args):
         raise Machinery("the system simulation exported no behaviours")
     hf = os.path.join(run.scratch, "system_hists.ndjson")
     shutil.move(src, hf)
+    hfs = [hf]
+    if thorough and full:
+        # every behaviour of the small exhaustive configuration (one witness per final state) is replayed as well
+        run.tlc("MC_System.tla", "System_small.cfg", overrides=dict(SysExport="TRUE"), timeout=3000, xmx="12g", count=False)
+        hf2 = os.path.join(run.scratch, "system_hists_exhaustive.ndjson")
+        shutil.move(src, hf2)
+        hfs.append(hf2)
     trace = os.path.join(run.scratch, "system_trace.ndjson")
     stats = os.path.join(run.scratch, "system_stats.json")
     nrand = (6000 if thorough else 300) if full else (2000 if thorough else 100)
-    run.harness_run(["system", trace, stats, hf, "--random", str(nrand), "60" if thorough else "40"])
-    os.remove(hf)
+    run.harness_run(["system", trace, stats] + hfs + ["--random", str(nrand), "60" if thorough else "40"], timeout=7200)
+    for x in hfs:
+        os.remove(x)
     st = json.load(open(stats))
     recs = run.validate_trace("Trace_System.tla", "Trace_System.cfg", trace_path=trace)
     tpath = os.path.join(d, "trace%d.ndjson" % (len(run.tlc_runs) - 1))
